@@ -13,7 +13,7 @@ RULE = (
     "construction attempts through every form (positional (dim, values, unit), (dim, category, values, unit), "
     "(dim, category[, unit=]), (dim, quantity[, values]), CreateWithQuantity with and without dimension=, "
     "CreateEmptyArray, a subclass with class-level _dimension) with dimension 0..6 and list/tuple/ndarray containers "
-    "of every length 0..7, then chains of CreateCopy(values/unit/category), arithmetic with FixedArray / Array / "
+    "of every length 0..7, then chains of CreateCopy(values / unit / values+unit / category, also on arrays without category), arithmetic with FixedArray / Array / "
     "numbers (equal and different lengths), copy/deepcopy/pickle, ChangingIndex (float / Scalar / (value, unit) tuple, "
     "use_value_unit both) and IndexAsScalar. Oracle: an attempt consistent with len(values)==dimension>=2 succeeds, "
     "any other raises ValueError; every FixedArray that ever exists has len(values)==dimension>=2 (dimension as "
@@ -162,6 +162,31 @@ class FAMachine:
             _, _, ck, vals = op
             values = gen.as_container(ck, vals)
             r = self.attempt("CreateCopy(values)", lambda: a.CreateCopy(values=values), len(vals) == d, d, [a])
+            if r is not None:
+                self.add(r)
+        elif kind == "copy_values_unit":
+            _, _, ck, vals, ui, with_cat = op
+            q = a.GetQuantity()
+            if q.IsDerived() and q.GetUnit() != "":
+                return
+            if q.GetCategory():
+                qt = a.GetQuantityType()
+                if qt not in db.quantity_types:
+                    return
+                us = db.GetUnits(qt)
+                kw = {"unit": us[ui % len(us)]}
+                if with_cat:
+                    kw["category"] = a.GetCategory()
+            else:
+                # a FixedArray without category (CreateEmptyArray, dimensionless results) accepts any unit
+                u, c = UNITS[ui % len(UNITS)]
+                kw = {"unit": u}
+                if with_cat:
+                    kw["category"] = c
+                self.flags.add("copy_of_categoryless_array")
+                self.ctx.cls("copy_of_categoryless_array")
+            values = gen.as_container(ck, vals)
+            r = self.attempt("CreateCopy(values,unit)", lambda: a.CreateCopy(values=values, **kw), len(vals) == d, d, [a])
             if r is not None:
                 self.add(r)
         elif kind == "copy_unit":
@@ -437,6 +462,7 @@ def fa_ops():
         construct(),
         st.tuples(st.just("copy_values"), i, kinds, vals),
         st.tuples(st.just("copy_unit"), i, i, st.booleans()),
+        st.tuples(st.just("copy_values_unit"), i, kinds, vals, i, st.booleans()),
         st.tuples(st.just("arith_fixed"), i, i, sym),
         st.tuples(st.just("arith_array"), i, kinds, vals, sym),
         st.tuples(st.just("arith_number"), i, st.one_of(st.integers(-5, 5), gen.moderate_values()), sym, st.booleans()),
